@@ -1,6 +1,7 @@
 (* Second traversal of build_d4_ddnnf (true / false elimination, delete_parent_and_chain):
-   nodes only disappear, the survivors keep their label and their value under every total
-   assignment (`shrink`).  And(..,T) = And(..), Or(..,F) = Or(..), an And with a F child is F and
+   nodes only disappear, the survivors keep their value under every total assignment and their
+   label - except that an or node with a true child becomes a true node (repair F12), which is
+   its value under every assignment (`shrink`).  And(..,T) = And(..), Or(..,F) = Or(..), an And with a F child is F and
    so is every And above it; an Or above loses a F child. *)
 From Coq Require Import List ZArith Bool Lia Arith.
 From DD Require Import Model.Circuit Model.LoadC2d Model.LoadD4 Proofs.LoadD4Graph Proofs.LoadD4Ops.
@@ -8,35 +9,46 @@ Import ListNotations.
 Local Open Scope nat_scope.
 
 Record shrink (g g' : sgraph) : Prop := {
-  sh_label : forall x, sg_alive g' x = true -> sg_label g' x = sg_label g x;
-  sh_keep : forall x t, sg_label g x = Some t -> t <> GAnd -> sg_label g' x = Some t;
+  sh_label : forall x, sg_alive g' x = true ->
+             sg_label g' x = sg_label g x \/ (sg_label g x = Some GOr /\ sg_label g' x = Some GTrue);
+  (* leaves are never touched; an or node survives, possibly as a true node *)
+  sh_keep : forall x t, sg_label g x = Some t -> t <> GAnd -> t <> GOr -> sg_label g' x = Some t;
+  sh_or : forall x, sg_label g x = Some GOr -> sg_label g' x = Some GOr \/ sg_label g' x = Some GTrue;
   sh_val : forall s x b, sg_alive g' x = true -> GV g s x b -> GV g' s x b;
-  (* a survivor whose children are all literal leaves keeps its child list *)
+  (* a survivor whose children are all literal leaves keeps its label and its child list *)
   sh_out : forall x, sg_alive g' x = true ->
            (forall c, In c (sg_out g x) -> exists l, sg_label g c = Some (GLit l)) ->
-           sg_out g' x = sg_out g x
+           sg_label g' x = sg_label g x /\ sg_out g' x = sg_out g x
 }.
 
 Lemma shrink_refl g : shrink g g.
 Proof. constructor; auto. Qed.
 
-Lemma lit_not_and t l : t = GLit l -> t <> GAnd.
-Proof. intros ->. discriminate. Qed.
-
 Lemma shrink_alive g g' x : shrink g g' -> sg_alive g' x = true -> sg_alive g x = true.
-Proof. intros H Ha. unfold sg_alive in *. rewrite <- (sh_label _ _ H x Ha). exact Ha. Qed.
+Proof.
+  intros H Ha. unfold sg_alive in *. destruct (sh_label _ _ H x Ha) as [E|[E _]]; [now rewrite <- E|now rewrite E].
+Qed.
 
 Lemma shrink_trans g1 g2 g3 : shrink g1 g2 -> shrink g2 g3 -> shrink g1 g3.
 Proof.
   intros H12 H23. constructor.
-  - intros x Ha. rewrite (sh_label _ _ H23 x Ha). apply (sh_label _ _ H12).
-    now apply (shrink_alive g2 g3).
-  - intros x t Hl Ht. apply (sh_keep _ _ H23); [|exact Ht]. now apply (sh_keep _ _ H12).
+  - intros x Ha. pose proof (shrink_alive g2 g3 x H23 Ha) as Ha2.
+    destruct (sh_label _ _ H23 x Ha) as [E23|[E2 E3]]; destruct (sh_label _ _ H12 x Ha2) as [E12|[E1 E2']].
+    + left. congruence.
+    + right. split; [exact E1|congruence].
+    + right. split; congruence.
+    + congruence.
+  - intros x t Hl Ht Ht'. apply (sh_keep _ _ H23); [|exact Ht|exact Ht']. now apply (sh_keep _ _ H12).
+  - intros x Hl. destruct (sh_or _ _ H12 x Hl) as [E|E].
+    + exact (sh_or _ _ H23 x E).
+    + right. apply (sh_keep _ _ H23 x _ E); discriminate.
   - intros s x b Ha Hv. apply (sh_val _ _ H23); [exact Ha|]. apply (sh_val _ _ H12); [|exact Hv].
     now apply (shrink_alive g2 g3).
-  - intros x Ha Hc. pose proof (sh_out _ _ H12 x (shrink_alive g2 g3 x H23 Ha) Hc) as E12.
-    rewrite (sh_out _ _ H23 x Ha); [exact E12|]. rewrite E12. intros c Hin.
-    destruct (Hc c Hin) as [l Hl]. exists l. apply (sh_keep _ _ H12 c _ Hl). discriminate.
+  - intros x Ha Hc. destruct (sh_out _ _ H12 x (shrink_alive g2 g3 x H23 Ha) Hc) as [L12 E12].
+    destruct (sh_out _ _ H23 x Ha) as [L23 E23].
+    + rewrite E12. intros c Hin. destruct (Hc c Hin) as [l Hl]. exists l.
+      apply (sh_keep _ _ H12 c _ Hl); discriminate.
+    + split; congruence.
 Qed.
 
 (* ---------- lists ---------- *)
@@ -98,8 +110,8 @@ Hypothesis Hcase :
 
 Lemma remove_neutral_val s x b : GV g s x b -> GV (remove_edge nx c g) s x b.
 Proof.
-  apply (gv_transfer g (remove_edge nx c g) s (fun _ => True)); [reflexivity| |exact I].
-  intros y bs _ Hl H. destruct (Nat.eq_dec y nx) as [->|Hne].
+  apply (gv_transfer g (remove_edge nx c g) s (fun _ => True)); [intros; now left| |exact I].
+  intros y bs _ _ Hl H. destruct (Nat.eq_dec y nx) as [->|Hne].
   - rewrite remove_edge_out_same.
     destruct (Forall2_remove1 (GV (remove_edge nx c g) s) c _ bs (Forall2_second _ _ _ _ H))
       as [bs' [H1 [H2 H3]]].
@@ -115,10 +127,12 @@ Qed.
 Lemma remove_neutral_shrink : shrink g (remove_edge nx c g).
 Proof.
   constructor.
-  - reflexivity.
-  - intros x t H _. exact H.
+  - intros x _. now left.
+  - intros x t H _ _. exact H.
+  - intros x H. now left.
   - intros s x b _. apply remove_neutral_val.
-  - intros x _ Hc. destruct (Nat.eq_dec x nx) as [->|Hne]; [|now apply remove_edge_out_other].
+  - intros x _ Hc. split; [reflexivity|].
+    destruct (Nat.eq_dec x nx) as [->|Hne]; [|now apply remove_edge_out_other].
     rewrite remove_edge_out_same. apply remove1_notin. intros Hin.
     destruct (Hc c Hin) as [l Hl]. destruct Hcase as [[_ E]|[_ E]]; congruence.
 Qed.
@@ -329,12 +343,16 @@ Proof.
   intros [Hm Hj _ Hu].
   assert (Hnr : forall x, sg_alive g' x = true -> ~ In x R).
   { intros x Ha Hin. destruct (mi_dead _ _ _ Hm x Hin) as [_ E]. unfold sg_alive in Ha. now rewrite E in Ha. }
+  assert (Hkeep : forall x t, sg_label g0 x = Some t -> t <> GAnd -> sg_label g' x = Some t).
+  { intros x t Hl Ht. rewrite (mi_live _ _ _ Hm); [exact Hl|].
+    intros Hin. destruct (mi_dead _ _ _ Hm x Hin) as [E _]. congruence. }
   constructor.
-  - intros x Ha. apply (mi_live _ _ _ Hm). now apply Hnr.
-  - intros x t Hl Ht. rewrite (mi_live _ _ _ Hm); [exact Hl|].
-    intros Hin. destruct (mi_dead _ _ _ Hm x Hin) as [E _]. congruence.
-  - intros s x b Ha. apply (gv_transfer g0 g' s (fun y => ~ In y R)); [apply (mi_live _ _ _ Hm)| |now apply Hnr].
-    intros y bs Hy Hl H. unfold sg_out at 1. rewrite (mi_edges _ _ _ Hm).
+  - intros x Ha. left. apply (mi_live _ _ _ Hm). now apply Hnr.
+  - intros x t Hl Ht _. now apply Hkeep.
+  - intros x Hl. left. apply Hkeep; [exact Hl|discriminate].
+  - intros s x b Ha. apply (gv_transfer g0 g' s (fun y => ~ In y R));
+      [intros y Hy; left; now apply (mi_live _ _ _ Hm)| |now apply Hnr].
+    intros y bs Hy _ Hl H. unfold sg_out at 1. rewrite (mi_edges _ _ _ Hm).
     fold (outs (filter (notin R) (sg_edges g0)) y). rewrite (outs_notin R _ y Hy).
     fold (sg_out g0 y).
     destruct (Forall2_filter_keep (GV g0 s) (GV g' s) (fun c => ~ In c R) (fun c => negb (mem c R)) (sg_out g0 y) bs)
@@ -346,7 +364,8 @@ Proof.
     + apply H3. intros c bc Hc Hk [f Hf]. apply negb_false_iff, mem_In in Hk.
       apply (dead_false g0 R s) with (f := f) (x := c); [|exact Hk|exact Hf].
       intros z Hz. split; [apply (mi_dead _ _ _ Hm z Hz)|now apply Hj].
-  - intros x Ha Hc. unfold sg_out at 1. rewrite (mi_edges _ _ _ Hm).
+  - intros x Ha Hc. split; [apply (mi_live _ _ _ Hm); now apply Hnr|].
+    unfold sg_out at 1. rewrite (mi_edges _ _ _ Hm).
     fold (outs (filter (notin R) (sg_edges g0)) x). rewrite (outs_notin R _ x (Hnr x Ha)).
     fold (sg_out g0 x). apply filter_all. intros c Hin. apply negb_true_iff, mem_notIn. intros HR.
     destruct (Hc c Hin) as [l Hl]. destruct (mi_dead _ _ _ Hm c HR) as [E _]. congruence.
@@ -366,35 +385,109 @@ Proof.
   split; [apply (mi_inv _ _ _ (ci_minus _ _ _ _ HC))|now apply (chain_shrink g g' R')].
 Qed.
 
+(* ---------- repair F12: an or node with a true child becomes a true node ---------- *)
+Lemma existsb_true_member (P : nat -> bool -> Prop) l bs c :
+  Forall2 P l bs -> In c l -> (forall b, P c b -> b = true) -> existsb id bs = true.
+Proof.
+  induction 1 as [|y b l bs Hyb _ IH]; intros Hin Hc; [destruct Hin|].
+  cbn [existsb]. destruct Hin as [->|Hin].
+  - now rewrite (Hc b Hyb).
+  - rewrite (IH Hin Hc). apply orb_true_r.
+Qed.
+
+Section OrTrue.
+Variables (g : sgraph) (nx c : nat).
+Hypothesis HI : Inv g.
+Hypothesis Hnx : sg_label g nx = Some GOr.
+Hypothesis Hc : In c (sg_out g nx).
+Hypothesis Hlc : sg_label g c = Some GTrue.
+
+Let g' := remove_out_edges nx (set_label nx GTrue g).
+
+Lemma or_true_alive : sg_alive g nx = true.
+Proof. unfold sg_alive. now rewrite Hnx. Qed.
+
+Lemma or_true_label_same : sg_label g' nx = Some GTrue.
+Proof. unfold g'. rewrite remove_out_edges_label. apply set_label_label_same, or_true_alive. Qed.
+
+Lemma or_true_label_other y : y <> nx -> sg_label g' y = sg_label g y.
+Proof. intros H. unfold g'. rewrite remove_out_edges_label. now apply set_label_label_other. Qed.
+
+Lemma or_true_out_other y : y <> nx -> sg_out g' y = sg_out g y.
+Proof.
+  intros H. unfold g'. rewrite remove_out_edges_out, set_label_out.
+  apply Nat.eqb_neq in H. now rewrite H.
+Qed.
+
+Lemma or_true_value s b : GV g s nx b -> b = true.
+Proof.
+  intros Hv. destruct (GV_or_inv g s nx b Hnx Hv) as [bs [Hbs ->]].
+  apply (existsb_true_member _ _ _ c Hbs Hc). intros b' Hb'. now apply (GV_true_inv g s c).
+Qed.
+
+Lemma or_true_Inv : Inv g'.
+Proof. unfold g'. apply remove_out_edges_Inv, set_label_Inv; [exact HI|apply or_true_alive]. Qed.
+
+Lemma or_true_shrink : shrink g g'.
+Proof.
+  constructor.
+  - intros x _. destruct (Nat.eq_dec x nx) as [->|Hne].
+    + right. split; [exact Hnx|apply or_true_label_same].
+    + left. now apply or_true_label_other.
+  - intros x t Hl _ Ht. rewrite or_true_label_other; [exact Hl|]. intros ->. congruence.
+  - intros x Hl. destruct (Nat.eq_dec x nx) as [->|Hne].
+    + right. apply or_true_label_same.
+    + left. now rewrite or_true_label_other.
+  - intros s x b _. apply (gv_transfer g g' s (fun _ => True)); [| |exact I].
+    + intros y _. destruct (Nat.eq_dec y nx) as [->|Hne].
+      * right. split; [apply or_true_label_same|apply or_true_value].
+      * left. now apply or_true_label_other.
+    + intros y bs _ Hly Hl H.
+      assert (Hne : y <> nx) by (intros ->; rewrite or_true_label_same, Hnx in Hly; discriminate).
+      rewrite (or_true_out_other y Hne). exists bs. split; [now apply Forall2_second in H|split; reflexivity].
+  - intros x _ Hall. assert (Hne : x <> nx).
+    { intros ->. destruct (Hall c Hc) as [l Hl]. congruence. }
+    split; [now apply or_true_label_other|now apply or_true_out_other].
+Qed.
+End OrTrue.
+
 (* ---------- the walker and the traversal ---------- *)
 Lemma walk2_shrink nx t : forall cs g g', Inv g -> sg_label g nx = Some t ->
-  (t = GAnd -> forall c, In c cs -> sg_label g c = Some GFalse -> In c (sg_out g nx)) ->
+  (forall c, In c cs ->
+     (t = GAnd /\ sg_label g c = Some GFalse) \/ (t = GOr /\ sg_label g c = Some GTrue) ->
+     In c (sg_out g nx)) ->
   walk2 g nx t cs = Some g' -> Inv g' /\ shrink g g'.
 Proof.
   induction cs as [|c r IH]; intros g g' HI Hn Hcs H; cbn [walk2] in H.
   - injection H as <-. split; [exact HI|apply shrink_refl].
-  - assert (Hr : t = GAnd -> forall c', In c' r -> sg_label g c' = Some GFalse -> In c' (sg_out g nx))
-      by (intros Ht c' Hc'; apply (Hcs Ht); now right).
+  - assert (Hr : forall c', In c' r ->
+       (t = GAnd /\ sg_label g c' = Some GFalse) \/ (t = GOr /\ sg_label g c' = Some GTrue) ->
+       In c' (sg_out g nx)) by (intros c' Hc'; apply Hcs; now right).
     destruct (sg_label g c) as [[l| | | |]|] eqn:Hc; try exact (IH g g' HI Hn Hr H).
     + (* a true child *)
       destruct t; try discriminate.
       * destruct (IH (remove_edge nx c g) g') as [HI' Hs]; [now apply remove_edge_Inv|exact Hn| |exact H|].
-        { intros _ c' Hc' Hl'. rewrite remove_edge_label in Hl'. rewrite remove_edge_out_same.
-          apply in_remove1_neq; [intros ->; congruence|now apply Hr]. }
+        { intros c' Hc' Hl'. rewrite remove_edge_label in Hl'. rewrite remove_edge_out_same.
+          destruct Hl' as [[_ Hl']|[E _]]; [|discriminate].
+          apply in_remove1_neq; [intros ->; congruence|apply Hr; [exact Hc'|left; now split]]. }
         split; [exact HI'|]. eapply shrink_trans; [|exact Hs]. apply remove_neutral_shrink. left. now split.
-      * exact (IH g g' HI Hn Hr H).
+      * injection H as <-.
+        assert (Hin : In c (sg_out g nx)) by (apply Hcs; [now left|right; now split]).
+        split; [now apply (or_true_Inv g nx)|now apply (or_true_shrink g nx c)].
     + (* a false child *)
       destruct t; try discriminate.
-      * apply (del_chain_shrink g nx c g' (sg_fuel g)); auto. apply (Hcs eq_refl); [now left|exact Hc].
+      * apply (del_chain_shrink g nx c g' (sg_fuel g)); auto. apply Hcs; [now left|left; now split].
       * destruct (IH (remove_edge nx c g) g') as [HI' Hs]; [now apply remove_edge_Inv|exact Hn| |exact H|].
-        { intros Ht. discriminate. }
+        { intros c' Hc' Hl'. rewrite remove_edge_label in Hl'. rewrite remove_edge_out_same.
+          destruct Hl' as [[E _]|[_ Hl']]; [discriminate|].
+          apply in_remove1_neq; [intros ->; congruence|apply Hr; [exact Hc'|right; now split]]. }
         split; [exact HI'|]. eapply shrink_trans; [|exact Hs]. apply remove_neutral_shrink. right. now split.
 Qed.
 
 Lemma pass2_body_shrink g nx g' : Inv g -> pass2_body g nx = Some g' -> Inv g' /\ shrink g g'.
 Proof.
   intros HI H. unfold pass2_body in H. destruct (sg_label g nx) as [t|] eqn:Hn.
-  - apply (walk2_shrink nx t (sg_out g nx) g g' HI Hn); [|exact H]. intros _ c Hc _. exact Hc.
+  - apply (walk2_shrink nx t (sg_out g nx) g g' HI Hn); [|exact H]. intros c Hc _. exact Hc.
   - injection H as <-. split; [exact HI|apply shrink_refl].
 Qed.
 
